@@ -1008,19 +1008,32 @@ def obj_face_reader(cx, rb):
     if not isinstance(arg, ast.Name):
         return "appended face is not a local list"
     row = arg.id
+    prov = cc.Prov(fn)
     adds = [c for c in au.calls(fn) if au.call_tail(c) == "append" and isinstance(c.func.value, ast.Name)
             and c.func.value.id == row and len(c.args) == 1 and isinstance(c.args[0], ast.Name)]
-    if len(adds) != 1:
-        return "the vertex ids of a face are not appended one by one to a local list"
-    vid = adds[0].args[0].id
-    prov = cc.Prov(fn)
-    bd = prov.find_binding(vid, adds[0])
-    if not bd or bd[2] != "for" or not isinstance(bd[0], (ast.Tuple, ast.List)) or not isinstance(bd[1], ast.Name):
-        return "vertex id is not unpacked from the parsed (v, vt, vn) triple"
-    pos = [i for i, t in enumerate(bd[0].elts) if isinstance(t, ast.Name) and t.id == vid][0]
-    inner = bd[3]
-    if au.guards(adds[0], stop=inner):
-        return "vertex id appended conditionally"
+    d_row = b.reaching(row, rb.node)
+    if not adds and isinstance(d_row, (ast.ListComp, ast.GeneratorExp)) and len(d_row.generators) == 1 and not d_row.generators[0].ifs \
+            and isinstance(d_row.elt, ast.Name) and isinstance(d_row.generators[0].target, (ast.Tuple, ast.List)) \
+            and isinstance(d_row.generators[0].iter, ast.Name):
+        # face = [vid for (vid, vt, vn) in F]
+        g0 = d_row.generators[0]
+        ps_ = [i for i, t in enumerate(g0.target.elts) if isinstance(t, ast.Name) and t.id == d_row.elt.id]
+        if len(ps_) != 1:
+            return "vertex id is not unpacked from the parsed (v, vt, vn) triple"
+        pos = ps_[0]
+        inner = getattr(b, "_last_def_stmt", rb.node)
+        bd = (g0.target, g0.iter, "comp", d_row)
+    else:
+        if len(adds) != 1:
+            return "the vertex ids of a face are not appended one by one to a local list"
+        vid = adds[0].args[0].id
+        bd = prov.find_binding(vid, adds[0])
+        if not bd or bd[2] != "for" or not isinstance(bd[0], (ast.Tuple, ast.List)) or not isinstance(bd[1], ast.Name):
+            return "vertex id is not unpacked from the parsed (v, vt, vn) triple"
+        pos = [i for i, t in enumerate(bd[0].elts) if isinstance(t, ast.Name) and t.id == vid][0]
+        inner = bd[3]
+        if au.guards(adds[0], stop=inner):
+            return "vertex id appended conditionally"
     bd2 = prov.find_binding(bd[1].id, inner)
     if not bd2 or bd2[2] != "for":
         return "face token list is not iterated from the staged faces"
@@ -1053,7 +1066,15 @@ def obj_face_reader(cx, rb):
     rs.convs, rs.offsets = ({conv} if conv else set()), ({off} if conv else set())
     it = comp.generators[0].iter
     rs.skip, rs.arity = rd.slice_info(it.slice) if isinstance(it, ast.Subscript) and isinstance(it.slice, ast.Slice) else (0, ("rest",))
-    rs.ok = rs.arity is not None
+    base_ = it.value if isinstance(it, ast.Subscript) and isinstance(it.slice, ast.Slice) else it
+    if isinstance(base_, ast.Name) and rs.skip is not None:
+        off_ = rd.base_offset(b, base_.id, stage[0])
+        rs.skip = None if off_ is None else rs.skip + off_
+    elif not isinstance(base_, ast.Name):
+        rs.skip = None
+    rs.ok = rs.arity is not None and rs.skip is not None
+    if not rs.ok:
+        return "position of the face tokens in the line not recognised"
     rb.keys = rd.branch_keys(stage[0])
     rb.guard_node = stage[0]
     rb.staged = True
@@ -1078,7 +1099,7 @@ def run_obj(ctx):
     cx = Codec(ctx, "obj")
     fmt = "obj"
     for rb in list(cx.rblocks):
-        if rb.kind == "faces" and not rb.spec.ok:
+        if rb.kind == "faces" and (not rb.spec.ok or not rb.spec.convs):
             err = obj_face_reader(cx, rb)
             if err:
                 rb.staged_failed = True
@@ -1572,7 +1593,11 @@ def regeneration_model(ctx):
 class _State:
     def __init__(self, D, CE, CF, kind):
         self.D, self.CE, self.CF, self.kind = D, CE, CF, kind
-        self.H = D >= 2 and CE
+        # the attribute flagging the declared edges is created by the completion of edges from faces (dimension >= 2, switch on);
+        # in the other states it may or may not be there (set by the user, or left on the edges of a surface whose faces were
+        # stripped by ignore_elements): both cases are examined
+        self.H = True if (D >= 2 and CE) else None
+        self.free_H = not (D >= 2 and CE)
 
     def nonempty(self, k):
         if k == self.kind or k == "vertices":
@@ -1586,7 +1611,8 @@ class _State:
         return None
 
     def __str__(self):
-        return f"dimensionality {self.D}, complete_edges_from_faces={self.CE}, complete_faces_from_cells={self.CF}"
+        return f"dimensionality {self.D}, complete_edges_from_faces={self.CE}, complete_faces_from_cells={self.CF}" + \
+            (f", declared-edge attribute {'present' if self.H else 'absent'}" if self.free_H and self.H is not None else "")
 
 
 def _and3(vals):
@@ -1752,8 +1778,12 @@ def c1_emission(cx, model):
         bad, unsure, bad_partial, bad_assign = None, None, None, {}
         for D in (0, 1, 2, 3):
             for CE in (True, False):
-                for CF in (True, False):
+                for CF, Hf in itertools.product((True, False), (True, False)):
                     st = _State(D, CE, CF, kind)
+                    if st.free_H:
+                        st.H = Hf
+                    elif not Hf:
+                        continue
                     need = required_level(kind, st)
                     if need is None:
                         continue
@@ -1798,8 +1828,12 @@ def c1_emission(cx, model):
                                 bad, bad_partial = st, partial
                                 bad_assign = assign
         if bad is not None:
-            ctx.fail("C04-C1", site,
-                     f"{fmt}: the conditions under which {kind} are written do not cover every mesh whose {kind} a load cannot regenerate",
+            flag_true = bad.free_H and bad.H
+            construct = f"{fmt}: the conditions under which {kind} are written do not cover every mesh whose {kind} a load cannot regenerate"
+            if kind == "edges" and bad_partial and bad_partial[0] == "declared" and flag_true:
+                construct = (f"{fmt}: only the edges flagged '{flag}' are written whenever that attribute exists, also when a load will not "
+                             f"regenerate the others (dimension 1 / edge completion off)")
+            ctx.fail("C04-C1", site, construct,
                      f"with {bad}{''.join(' and `' + k + '` ' + ('true' if v else 'false') for k, v in bad_assign.items())}: a load regenerates edges only under config.{sw['edges']} (as face sides) and faces only under "
                      f"config.{sw['faces']} (as cell sides), so {'every edge' if required_level(kind, bad) == 'all' else 'the declared ' + kind} "
                      f"must be in the file, but " + ("no block writing them runs in that state" if bad_partial is None else
